@@ -143,6 +143,16 @@ def run (cfg : Cfg) (words : List Word) (targets : List Str) : Outcome :=
       -- no default: rcmd_init fails when no module was registered at all
       if anyTyped words then .lines (connectAll cfg reg none targets 0) else .fatal
 
+/-- proposed repair of F09-2BR (findings/C09.patch): hostlist_register_rcmd expands every name once
+    more before registering it -- shift every first-level name and push it into a fresh list, which
+    is what opt.c's wcoll_expand does to the target list.  The names registered are then, by
+    construction, the names the word contributes to the final list. -/
+def reExpand (w : Word) : Word := { w with first := w.full }
+
+/-- the run of the repaired code -/
+def runRe (cfg : Cfg) (words : List Word) (targets : List Str) : Outcome :=
+  run cfg (words.map reExpand) targets
+
 /-- opt.c builds the command by joining the remote argv with single blanks -/
 def joinCmd : List Str → Str
   | [] => []
